@@ -401,6 +401,17 @@ class Client(object):
     def get_history(self):
         return None
 
+    # what web.root.Root asks of the client when the resource tree is built
+    stats_provider = None
+    helper = None
+    AUTH_TOKEN = b"Ym9ndXMtYXBpLWF1dGgtdG9rZW4tZm9yLXZlcmlm"
+
+    def get_auth_token(self):
+        return self.AUTH_TOKEN
+
+    def getServiceNamed(self, name):
+        raise KeyError(name)
+
 
 # ---- request -----------------------------------------------------------------------------------------------
 
